@@ -242,8 +242,10 @@ class Inliner(object):
             self._sites[key] = count
         return self._sites[key]
 
-    def expand(self, caller, call, callee, result, stack):
-        """Statements replacing a call to callee."""
+    def expand(self, caller, call, callee, result, stack, cond=False):
+        """Statements replacing a call to callee (cond: (pre, body) for a
+        call in condition position; returns stay ``return`` statements
+        marked ``_inline_cond_ret``)."""
         raw = callee.raw
         self.counter += 1
         tag = '%s__%d' % (callee.name.strip('_'), self.counter)
@@ -301,11 +303,18 @@ class Inliner(object):
             body = body[1:]
         renamer = _Rename(subst, locals_map)
         body = [renamer.visit(stmt) for stmt in body]
-        ret = _Returns(result)
         new_body = []
-        for stmt in body:
-            out = ret.visit(stmt)
-            new_body.extend(out if isinstance(out, list) else [out])
+        if cond:
+            for stmt in body:
+                for sub in ast.walk(stmt):
+                    if isinstance(sub, ast.Return):
+                        sub._inline_cond_ret = True
+                new_body.append(stmt)
+        else:
+            ret = _Returns(result)
+            for stmt in body:
+                out = ret.visit(stmt)
+                new_body.extend(out if isinstance(out, list) else [out])
         if result is not None:
             # falling off the end returns None
             new_body.append(ast.copy_location(ast.Assign(
@@ -318,6 +327,23 @@ class Inliner(object):
             new_body = [ast.copy_location(ast.Pass(), call)]
         # recurse into the inlined body
         new_body = self.process(callee, new_body, stack + [callee.fq])
+        if cond:
+            for stmt in new_body:
+                for node in ast.walk(stmt):
+                    if not hasattr(node, 'lineno'):
+                        node.lineno = call.lineno
+                        node.col_offset = getattr(call, 'col_offset', 0)
+                        node.end_lineno = getattr(call, 'end_lineno',
+                                                  call.lineno)
+                        node.end_col_offset = getattr(call,
+                                                      'end_col_offset', 0)
+            self.inlined.append(callee.fq)
+            stats = self.index.__dict__.setdefault('inline_stats', {})
+            stats.setdefault(callee.fq, set()).add(
+                (caller.fq, call.lineno, call.col_offset))
+            totals = self.index.__dict__.setdefault('inline_totals', {})
+            totals[callee.fq] = self.call_sites(callee)
+            return pre, new_body
         block = ast.copy_location(ast.If(
             test=ast.Constant(value=True), body=new_body, orelse=[]), call)
         block._inline = callee.fq
@@ -378,25 +404,24 @@ class Inliner(object):
                 tail = [ast.copy_location(ast.Return(
                     value=ast.Name(id=result, ctx=ast.Load())), stmt)]
         elif isinstance(stmt, ast.If):
+            # a helper used as the condition: its body is attached to the
+            # call (``_inline_body``) and spliced by the CFG builder, each
+            # ``return E`` of the helper becoming a branch on E
             test = stmt.test
-            neg = False
             if isinstance(test, ast.UnaryOp) and isinstance(test.op,
                                                             ast.Not):
                 test = test.operand
-                neg = True
-            if isinstance(test, ast.Call):
+            if isinstance(test, ast.Call) and \
+                    not hasattr(test, '_inline_body'):
                 callee = self.inlinable(caller, test, stack)
                 if callee is not None:
-                    result = self._fresh(callee.name)
-                    expanded = self.expand(caller, test, callee, result,
-                                           stack)
+                    expanded = self.expand(caller, test, callee, None,
+                                           stack, cond=True)
                     if expanded is not None:
-                        name = ast.copy_location(
-                            ast.Name(id=result, ctx=ast.Load()), test)
-                        stmt.test = ast.copy_location(ast.UnaryOp(
-                            op=ast.Not(), operand=name), test) if neg \
-                            else name
-                        return expanded + [stmt]
+                        pre, body = expanded
+                        test._inline_body = body
+                        test._inline = callee.fq
+                        return pre + [stmt]
             return [stmt]
         if call is None:
             return [stmt]
